@@ -218,7 +218,7 @@ func (Engine) Gen(seed uint64, idx int, tier string) interface{} {
 	}
 	if sc.Mode == "eval" {
 		// an expression: take something bracket-rich
-		es := []string{"f(a, *b, c=1, **d)[1:2].x + (lambda q: q)(1) if y else [i for i in z]", "{1: 'a', **m}", "(yield x)", "a < b < c and not d or e", "'%s' % (x,) + \"\"\"t\"\"\" * 2", "[1, 2,\n 3]"}
+		es := []string{"f(a, *b, c=1, **d)[1:2].x + (lambda q: q)(1) if y else [i for i in z]", "{1: 'a', **m}", "(yield x)", "a < b < c and not d or e", "'%s' % (x,) + \"\"\"t\"\"\" * 2", "[1, 2,\n 3]", "1 + \\\n 2", "(a,\n b) \\\n + c", "x \\\n"}
 		sc.Src = es[r.Intn(len(es))]
 		sc.Name = "<expr>"
 	}
@@ -228,6 +228,9 @@ func (Engine) Gen(seed uint64, idx int, tier string) interface{} {
 	}
 	if sc.Name == "<exprfuzz>" && r.Chance(2, 3) {
 		nf = 0
+	}
+	if r.Chance(1, 12) {
+		nf = 0 // fault-free control: the undamaged source through the same pipeline and reader
 	}
 	kinds := []string{"trunc", "trunc", "flip", "insert", "insert", "delete", "dupline", "swapline", "indent", "splice", "splice", "splice"}
 	for i := 0; i < nf; i++ {
